@@ -9,7 +9,8 @@ All statements are about the functions of `Model/Pack.lean` / `Model/Half.lean` 
 (`encode`, `decode`, `packLen`, `rxnEncode`, `rxnDecode`, `rxnPackLen`, `toF16`, `ofF16`, `pairEnc/pairDec`,
 `orderEnc/orderDec`). `WF m` is exactly the format limits: atom numbers distinct and ≤ 4095, ≤ 15 neighbours,
 Z 1…118, isotope offset 1…31, charge −4…4, H 0…6 or unknown, bond orders 1…8, symmetric adjacency without loops,
-every bond listed from both ends, ≤ 4095 cis/trans records whose terminal atoms are known and ≤ 4095.
+≤ 4095 cis/trans records whose terminal atoms are known and ≤ 4095. (That every bond is listed from both ends —
+the handshake — is derived from the symmetry: `Proofs.C10.handshake`.)
 `wfb` is its executable form; the driver evaluates it on every generated molecule.
 -/
 namespace ChythonModel.Props.C10
@@ -95,6 +96,12 @@ theorem encode_is_layout (m : PMol) (h : WF m) : ∃ bytes, encode m = .ok bytes
 theorem order_stream_is_layout (codes : List Nat) (b : Nat) (h : ∀ c ∈ codes, c < 8) :
     orderEnc 0 b codes = fieldsBytes (codes.map fun c => (3, c)) :=
   orders_layout codes b h
+
+/-- with symmetric adjacency every bond is listed from both ends: the neighbour counts add up to twice the number of
+    bonds whose order is written (this is what makes `bonds_count = Σ neighbours / 2` right in both `.pyx` files) -/
+theorem handshake (atoms : List PAtom) (g : GraphOK atoms) :
+    2 * (firstSeen [] atoms).length = (atoms.map (·.nbrs.length)).sum :=
+  Proofs.C10.handshake g
 
 /-- the executable limit test implies the hypothesis -/
 theorem wf_of_wfb (m : PMol) (h : wfb m = true) : WF m := wfb_sound m h
